@@ -1099,11 +1099,14 @@ bn_digits_export_le_bin(bn_digit_t *a, size_t count, uint32_t flags,
 		ddiff = (bn_size - buf_size);
 		if (ddiff > BN_DIGIT_SIZE)
 			return (EOVERFLOW);
-		if (ddiff == BN_DIGIT_SIZE && 0 != a[(count - 1)])
+		if (ddiff == BN_DIGIT_SIZE) {
+			if (0 != a[(count - 1)])
+				return (EOVERFLOW);
+		} else if (a[(count - 1)] >=
+		    (((bn_digit_t)1) << ((BN_DIGIT_SIZE - ddiff) * 8))) {
+			/* The ddiff high bytes of the last digit must be zero. */
 			return (EOVERFLOW);
-		/* Calculate maximum value of last bn_digit_t to export. */
-		if (a[(count - 1)] >= (((bn_digit_t)1) << (1 + (ddiff * 8))))
-			return (EOVERFLOW);
+		}
 		bn_size = buf_size; /* Fix len and continue. */
 		if (NULL != buf_size_ret) /* Update return value. */
 			(*buf_size_ret) = bn_size;
